@@ -124,6 +124,31 @@ class HW:
         if extra:
             raise RuntimeError(f"harness error: netlist has undeclared input ports {extra}")
 
+    # -- ghost state ------------------------------------------------------------------------------
+    def ghost(self, name, width, init=0):
+        """Ghost register: exists only in the z3 problem. Returns the current-value variable; set its
+        next-state term with set_ghost_next (may mention the variable itself, state and inputs)."""
+        key = ("ghost", name)
+        assert key not in self.ts.state
+        v = z3.BitVec(f"ghost_{name}{self.ts.suffix}", width)
+        self.ts.state[key] = v
+        self.ts.init[key] = init
+        self.ts.next[key] = v
+        return v
+
+    def set_ghost_next(self, var, term):
+        for k, v in self.ts.state.items():
+            if v.eq(var):
+                self.ts.next[k] = term
+                return
+        raise KeyError(var)
+
+    def gnext(self, var):
+        for k, v in self.ts.state.items():
+            if v.eq(var):
+                return self.ts.next[k]
+        raise KeyError(var)
+
     # -- convenience -------------------------------------------------------------------------
     def sig(self, v):
         return self.ts.sig(v)
